@@ -609,8 +609,11 @@ Proof.
     unfold reg_add. destruct (find _ (r_all r)) as [first|]; [|apply Happ; exact Hr].
     destruct (m_pkg first && negb k); [intros x Hx; apply Hr; exact Hx|].
     apply Happ. intros x Hx. apply Hr. unfold r_rootkinds.
-    apply in_map_iff in Hx as [o [Ho Hin]]. apply filter_In in Hin as [Hin _].
-    apply in_map_iff. exists o. split; assumption. }
+    apply in_map_iff in Hx as [o [Ho Hin]].
+    apply in_map_iff. exists o. split; [exact Ho|].
+    clear -Hin. induction (r_rootobjs r) as [|q l IHl]; [destruct Hin|]. cbn [remove_root] in Hin.
+    destruct (N.eqb (ro_id q) (m_id first)); [right; exact Hin|].
+    destruct Hin as [<-|Hin]; [left; reflexivity|right; apply IHl; exact Hin]. }
   apply Hgen. intros k [].
 Qed.
 
